@@ -302,3 +302,9 @@ def run(ctx, eng):
                node=cell[2] if cell else fsm.stream.node)
     ctx.assume('hyperframe\'s own classification of malformed frames is '
                'trusted')
+    cm.include(ctx, eng, 'C19', {('ORD.gate', '_receive_headers_frame'),
+                                 ('ORD.gate',
+                                  '_receive_push_promise_frame')},
+               'last-stream-id counts only streams the peer really opened: '
+               'the connection machine refuses the frame before any stream '
+               'is created for it')
